@@ -487,11 +487,17 @@ func (e *Env) call(n *ECall) EVal {
 		return EVal{T: TZero, Ty: intT}
 	}
 	// predicates
-	if p := e.findPred(n.Fun); p != nil {
+	if p, psp := e.findPredSpec(n.Fun); p != nil {
 		if len(p.Params) != len(n.Args) {
 			fatalf("%s: predicate %s expects %d arguments", e.s.name, n.Fun, len(p.Params))
 		}
 		c := e.child()
+		if psp != nil && psp != e.spec {
+			// predicates are evaluated in the scope of the package that defines them
+			if pt := e.s.pkgTypes(psp.Path); pt != nil {
+				c.pkg, c.spec = pt, psp
+			}
+		}
 		c.vars = map[string]EVal{}
 		c.lookup = nil
 		c.result = nil
@@ -499,11 +505,11 @@ func (e *Env) call(n *ECall) EVal {
 		for i, prm := range p.Params {
 			nb[prm.Name] = e.eval(n.Args[i])
 			if nb[prm.Name].IsNil {
-				t := e.s.P.resolveType(e.pkg, prm.Type)
+				t := e.s.P.resolveType(c.pkg, prm.Type)
 				nb[prm.Name] = EVal{T: zeroTerm(sortOf(t)), Ty: t}
 			} else if nb[prm.Name].Ty == nil && nb[prm.Name].GKey == nil {
 				v := nb[prm.Name]
-				v.Ty = e.s.P.resolveType(e.pkg, prm.Type)
+				v.Ty = e.s.P.resolveType(c.pkg, prm.Type)
 				nb[prm.Name] = v
 			}
 		}
@@ -544,6 +550,18 @@ func (e *Env) elemAt(a EVal) func(i Term) Term {
 	k, so := elemKey(sl.Elem())
 	E := e.heap(k, so)
 	return func(i Term) Term { return Select(Select(E, SArr(a.T)), SIdx(a.T, i)) }
+}
+
+func (e *Env) findPredSpec(name string) (*Pred, *PkgSpec) {
+	if p := e.spec.Preds[name]; p != nil {
+		return p, e.spec
+	}
+	for _, sp := range e.s.P.specs {
+		if p := sp.Preds[name]; p != nil {
+			return p, sp
+		}
+	}
+	return nil, nil
 }
 
 func (e *Env) findPred(name string) *Pred {
